@@ -22,6 +22,7 @@ var Registry = map[string]func() int{
 	"C16": C16,
 	"C17": C17,
 	"C18": C18,
+	"C20": C20,
 }
 
 func IDs() []string {
